@@ -551,7 +551,10 @@ def olson_rules(ctx):
         try:
             SymEval(repo, A, hooks=h).call_function(
                 f, [vec([fw.get((0,)), fw.get((1,)), fw.get((2,))], True)])
-        except (Unsupported, ValueError, ZeroDivisionError):
+        except (Unsupported, ValueError, ZeroDivisionError) as e_:
+            import os as _os
+            if _os.environ.get('PYINS_SA_DEBUG'):
+                print('OLSON-INIT eval stopped:', type(e_).__name__, e_)
             pass                 # only the part up to the inverse trigonometric call is needed
         ctx.need(q in h.cut, 'ecef_to_lla: no %s call reached under comparison outcome %s'
                  % (fn, mask))
@@ -657,12 +660,26 @@ def olson_rules(ctx):
             exact[nm] = e
         at = {'L': phi}
         want = {'latitude': phi, 'altitude': alt}
+        pole = False
         for nm, e in exact.items():
             try:
                 fix = A.is_zero(A.sub(A.subst(e, at), want[nm]))
                 d1 = A.is_zero(A.subst(A.diff(e, 'L'), at))
             except ValueError as e2:
                 raise AnalysisError('OLSON-NEWTON: %s' % e2)
+            except ZeroDivisionError:
+                # a denominator of the returned expression is IDENTICALLY zero (a polynomial
+                # identity of the normal form) once the guess is the exact latitude
+                ctx.ob('OLSON-NEWTON', False, None,
+                       '%s: finite for an exact guess (%s branch)' % (nm, fn), f=f,
+                       key='pole-%s-%s' % (nm, fn),
+                       why='the %s returned by the %s branch of ecef_to_lla divides by a quantity '
+                           'that vanishes identically when the guess is the exact latitude (the '
+                           'residual or the correction itself): the better the first '
+                           'approximation, the larger the error, and an exact guess gives inf / '
+                           'nan' % (nm, fn))
+                pole = True
+                continue
             ctx.ob('OLSON-NEWTON', fix, None,
                    '%s: an exact guess is returned unchanged (%s branch)' % (nm, fn), f=f,
                    key='fixed-%s-%s' % (nm, fn),
@@ -676,6 +693,8 @@ def olson_rules(ctx):
                        'is not the Newton step of the ellipsoid geometry (wrong radius in the '
                        'denominator / wrong residual), so the ~1e-7 rad error of the guess is '
                        'only partly removed' % (nm, fn))
+        if pole:
+            continue
         try:
             d2 = A.is_zero(A.subst(A.diff(A.diff(exact['altitude'], 'L'), 'L'), at))
         except ValueError as e2:
